@@ -334,6 +334,14 @@ class ExprMixin:
             elif cid in self.index.class_by_id:
                 return outs + self.getattr_v(st, ClassV(self.index.class_by_id[cid]), name, node)
         r = r_of(t)
+        # abstract-method contracts (behavioural subtyping): the hinted class's contract stands for every subclass
+        if v.cls is not None and not v.exact and self.contracts is not None:
+            f0 = v.cls.lookup(name)
+            if f0 is not None:
+                c0 = self.contracts.by_target.get(f0.qualname)
+                if c0 is not None and c0.opts.get('dispatch') == 'static':
+                    self.assumptions_used.add(f'behavioural subtyping: every override of {f0.qualname} obeys its contract')
+                    return outs + self.ok(st, BoundV(FuncV(f0), v))
         cands = self.candidate_classes(st, v)
         # group candidates by how `name` resolves
         groups = {}
